@@ -12,14 +12,14 @@ import (
 
 func init() {
 	register(&propDef{
-		id: "C40",
+		id:      "C40",
 		explain: "Structural necessary conditions of 'LBClient routes to the least loaded client, bounds penalties and never panics': (R1) in the selection loop of LBClient.get the selected client and the keys recorded for it (its load and its completed-request total) are replaced together on every path of an iteration - a candidate recorded with the keys of another client makes later comparisons wrong; the selection condition depends on both keys; (E1) penalty pairing: incPenalty keeps one unit exactly when it returns true (it gives the unit back itself when the bound is exceeded, under a comparison with the bound), and the caller schedules exactly one decrement for every unit kept, on every path; (R3) get returns nil exactly when there is no client, every caller tests for nil and reports ErrNoAvailableClients, and no explicit panic is reachable through static calls from the Do* methods. Not decided: optimality of the choice under concurrent updates, timing of the 3 s penalty expiry.",
-		run: runC40,
+		run:     runC40,
 	})
 	register(&propDef{
-		id: "C41",
+		id:      "C41",
 		explain: "Structural necessary conditions of 'TCPDialer bounds concurrent dials and returns ErrDialTimeout by the deadline': (E1) the dial semaphore is paired: when a concurrency channel exists every path to the dial has acquired a slot (fast or waiting send) and the release is deferred exactly on those paths; the waiting acquisition is a select that includes a timer armed with the remaining time, and its timeout path returns ErrDialTimeout without holding a slot; (R2) the context that bounds the connect is built from the absolute deadline (or from a duration computed after the slot was acquired), so time spent waiting for a slot is not granted again; (R3) every ErrDialTimeout (and every other dial error) leaves tryDial wrapped with the upstream address; (R4) the rotation loop of dial advances the address index after every failed attempt and stops on ErrDialTimeout; (R5) a failed connect is classified as a timeout by the deadline itself, not only by the context's state. Not decided: real timing, resolver behaviour, the DNS cache (C37).",
-		run: runC41,
+		run:     runC41,
 	})
 }
 
